@@ -8,6 +8,7 @@
 #include <tlx/digest/sha512.hpp>
 #include <tlx/siphash.hpp>
 
+#include <array>
 #include <cstdint>
 #include <cstdio>
 #include <cstring>
@@ -16,7 +17,10 @@
 #include <memory>
 #include <sstream>
 #include <string>
+#include <string_view>
 #include <vector>
+
+#include <sys/mman.h>
 
 extern "C" {
 void c14_md5_compress(std::uint32_t* st, const std::uint8_t* blk);
@@ -62,25 +66,75 @@ struct Exact
     std::unique_ptr<std::uint8_t[]> p; size_t n;
     Exact(const std::uint8_t* src, size_t len) : p(new std::uint8_t[len ? len : 1]), n(len) { if (len) std::memcpy(p.get(), src, len); }
     const std::uint8_t* data() const { return p.get(); }
-    tlx::string_view sv() const { return tlx::string_view(reinterpret_cast<const char*>(p.get()), n); }
+    const char* cdata() const { return reinterpret_cast<const char*>(p.get()); }
+    tlx::string_view sv() const { return tlx::string_view(cdata(), n); }
+    std::string str() const { return std::string(cdata(), n); }
+    bool has_nul() const { return n != 0 && std::memchr(p.get(), 0, n) != nullptr; }
 };
 
-// variant 0: default ctor, process(ptr,size) for all chunks
-// variant 1: ctor(ptr,size) on the first chunk, process(string_view) for the rest
-// variant 2: ctor(string_view) on the first chunk, then alternating overloads
-template <typename Hsh>
-static std::unique_ptr<Hsh> feed(const std::vector<Exact>& chunks, int variant)
+// SplitMix64: which overload / argument type each call uses is derived from the case's variant seed
+struct Rng
 {
+    std::uint64_t s;
+    explicit Rng(std::uint64_t seed) : s(seed) {}
+    std::uint64_t next()
+    {
+        s += 0x9E3779B97F4A7C15ULL; std::uint64_t z = s;
+        z = (z ^ (z >> 30)) * 0xBF58476D1CE4E5B9ULL; z = (z ^ (z >> 27)) * 0x94D049BB133111EBULL;
+        return z ^ (z >> 31);
+    }
+    unsigned below(unsigned n) { return static_cast<unsigned>(next() % n); }
+};
+
+// Every public way to get bytes into a digest object (see coverage.api_surface in checks/C14.py):
+//   constructors: X(), X(const void*, uint32), explicit X(tlx::string_view) reached with a tlx::string_view, a std::string,
+//                 a std::string_view and a NUL-terminated const char*
+//   process(const void*, uint32) (also (nullptr, 0)), process(tlx::string_view) reached with tlx::string_view (also a default
+//                 constructed one), std::string lvalue / rvalue, std::string_view, const char*
+//   implicit copy construction / copy assignment / move construction of a half-fed object
+// seed == 0 keeps the fixed behaviour "default constructor + process(ptr, size)".
+template <typename Hsh>
+static std::unique_ptr<Hsh> feed(const std::vector<Exact>& chunks, std::uint64_t seed)
+{
+    Rng r(seed * 0x2545F4914F6CDD1DULL + 12345);
     std::unique_ptr<Hsh> h;
     size_t start = 0;
-    if (variant == 0 || chunks.empty()) h.reset(new Hsh());
-    else if (variant == 1) { h.reset(new Hsh(chunks[0].data(), static_cast<std::uint32_t>(chunks[0].n))); start = 1; }
-    else { h.reset(new Hsh(chunks[0].sv())); start = 1; }
+    unsigned c = (seed == 0 || chunks.empty()) ? 0 : r.below(6);
+    if (c == 5 && chunks[0].has_nul()) c = 1;
+    switch (c)
+    {
+    case 0: h.reset(new Hsh()); break;
+    case 1: h.reset(new Hsh(chunks[0].data(), static_cast<std::uint32_t>(chunks[0].n))); start = 1; break;
+    case 2: h.reset(new Hsh(chunks[0].sv())); start = 1; break;
+    case 3: { std::string s = chunks[0].str(); h.reset(new Hsh(s)); start = 1; break; }
+    case 4: { std::string_view v(chunks[0].cdata(), chunks[0].n); h.reset(new Hsh(v)); start = 1; break; }
+    default: { std::string s = chunks[0].str(); h.reset(new Hsh(s.c_str())); start = 1; break; }
+    }
     for (size_t i = start; i < chunks.size(); ++i)
     {
-        bool use_sv = (variant == 1) || (variant == 2 && (i & 1));
-        if (use_sv) h->process(chunks[i].sv());
-        else h->process(chunks[i].data(), static_cast<std::uint32_t>(chunks[i].n));
+        const Exact& ck = chunks[i];
+        if (seed != 0 && r.below(4) == 0)
+        {
+            // continue on a copy of the half-fed object
+            unsigned k = r.below(3);
+            if (k == 0) h.reset(new Hsh(*h));                                                       // copy construction
+            else if (k == 1) { std::unique_ptr<Hsh> o(new Hsh("some other message")); *o = *h; h = std::move(o); }  // copy assignment
+            else h.reset(new Hsh(std::move(*h)));                                                    // move construction
+        }
+        unsigned a = seed == 0 ? 0 : r.below(7);
+        if (a == 5 && ck.has_nul()) a = 0;
+        if (a == 6 && ck.n != 0) a = 1;
+        switch (a)
+        {
+        case 0: h->process(ck.data(), static_cast<std::uint32_t>(ck.n)); break;
+        case 1: h->process(ck.sv()); break;
+        case 2: { std::string s = ck.str(); h->process(s); break; }
+        case 3: h->process(ck.str()); break;
+        case 4: h->process(std::string_view(ck.cdata(), ck.n)); break;
+        case 5: { std::string s = ck.str(); h->process(s.c_str()); break; }
+        default:
+            if (r.below(2)) h->process(static_cast<const void*>(nullptr), 0); else h->process(tlx::string_view());      // empty call
+        }
     }
     return h;
 }
@@ -93,33 +147,46 @@ static std::vector<Exact> cut(const Bytes& msg, const std::vector<size_t>& sizes
 }
 
 template <typename Hsh>
-static std::string raw_digest(const Bytes& msg, const std::vector<size_t>& sizes, int variant)
+static std::string raw_digest(const Bytes& msg, const std::vector<size_t>& sizes, std::uint64_t seed)
 {
     auto cks = cut(msg, sizes);
-    std::string d = feed<Hsh>(cks, variant)->digest();
+    std::string d = feed<Hsh>(cks, seed)->digest();
     return tohex(d.data(), d.size());
+}
+
+// the free helper functions with every argument type they accept; all results must agree
+template <typename FP, typename FS>
+static std::string helper_all(const Exact& whole, FP by_ptr, FS by_sv)
+{
+    std::string first = by_ptr(whole.data(), static_cast<std::uint32_t>(whole.n));
+    std::vector<std::string> rest;
+    rest.push_back(by_sv(whole.sv()));
+    { std::string s = whole.str(); rest.push_back(by_sv(s)); }
+    rest.push_back(by_sv(std::string_view(whole.cdata(), whole.n)));
+    if (!whole.has_nul()) { std::string s = whole.str(); rest.push_back(by_sv(s.c_str())); }
+    for (const auto& x : rest) if (x != first) return first + "!=" + x;
+    return first;
 }
 
 template <typename Hsh, typename F1, typename F2, typename F3, typename F4>
 static void digest_case(std::ostream& os, const char* name, const Bytes& msg, const std::vector<std::vector<size_t>>& chunkings,
-                        F1 hex_ps, F2 hex_sv, F3 hexuc_ps, F4 hexuc_sv)
+                        std::uint64_t variant, F1 hex_ps, F2 hex_sv, F3 hexuc_ps, F4 hexuc_sv)
 {
     Exact whole(msg.data(), msg.size());
-    std::string h1 = hex_ps(whole.data(), static_cast<std::uint32_t>(whole.n)), h2 = hex_sv(whole.sv());
-    std::string u1 = hexuc_ps(whole.data(), static_cast<std::uint32_t>(whole.n)), u2 = hexuc_sv(whole.sv());
-    os << ' ' << name << ":h=" << h1; if (h2 != h1) os << "!=" << h2;
-    os << ":H=" << u1; if (u2 != u1) os << "!=" << u2;
+    os << ' ' << name << ":h=" << helper_all(whole, hex_ps, hex_sv) << ":H=" << helper_all(whole, hexuc_ps, hexuc_sv);
+    std::uint64_t k = 0;
     for (const auto& sizes : chunkings)
     {
         auto cks = cut(msg, sizes);
-        std::string raw = feed<Hsh>(cks, 0)->digest();
+        std::uint64_t sd = variant == 0 ? 0 : variant * 1000 + 10 * (++k);
+        std::string raw = feed<Hsh>(cks, sd)->digest();
         // finalize(void*) into an exact-size block must give the same bytes as digest()
         std::unique_ptr<std::uint8_t[]> fin(new std::uint8_t[Hsh::kDigestLength]);
-        feed<Hsh>(cks, 2)->finalize(fin.get());
+        feed<Hsh>(cks, sd + 1)->finalize(fin.get());
         os << ':' << tohex(raw.data(), raw.size());
         if (raw.size() != Hsh::kDigestLength || std::memcmp(fin.get(), raw.data(), raw.size()) != 0)
             os << "!=finalize:" << tohex(fin.get(), Hsh::kDigestLength);
-        os << ',' << feed<Hsh>(cks, 1)->digest_hex() << ',' << feed<Hsh>(cks, 2)->digest_hex_uc();
+        os << ',' << feed<Hsh>(cks, sd + 2)->digest_hex() << ',' << feed<Hsh>(cks, sd + 3)->digest_hex_uc();
     }
 }
 
@@ -135,18 +202,44 @@ static std::string all_splits(const Bytes& msg, int k, const char* name, long& c
         if (k == 2)
         {
             ++count;
-            std::string d = raw_digest<Hsh>(msg, {a, n - a}, static_cast<int>(a % 3));
+            std::string d = raw_digest<Hsh>(msg, {a, n - a}, a % 3 == 0 ? 0 : 7 * n + a);
             if (d != oneshot) { std::ostringstream e; e << name << " split=" << a << ',' << (n - a) << " got=" << d; return e.str(); }
         }
         else
             for (size_t b = a; b <= n; ++b)
             {
                 ++count;
-                std::string d = raw_digest<Hsh>(msg, {a, b - a, n - b}, static_cast<int>((a + b) % 3));
+                std::string d = raw_digest<Hsh>(msg, {a, b - a, n - b}, (a + b) % 3 == 0 ? 0 : 131 * a + b + 1);
                 if (d != oneshot) { std::ostringstream e; e << name << " split=" << a << ',' << (b - a) << ',' << (n - b) << " got=" << d; return e.str(); }
             }
     }
     return "";
+}
+
+// L case: a long message (pattern of prime period repeated), explicit chunking, one raw digest + one-shot helper per algorithm
+template <typename Hsh, typename FP>
+static void long_case(std::ostream& os, const char* name, const Bytes& msg, const std::vector<size_t>& sizes, std::uint64_t seed, FP hex_ps)
+{
+    std::string raw;
+    { auto cks = cut(msg, sizes); raw = feed<Hsh>(cks, seed)->digest_hex(); }
+    os << ' ' << name << '=' << raw;
+    std::string one = hex_ps(msg.data(), static_cast<std::uint32_t>(msg.size()));
+    if (one != raw) os << "!=oneshot:" << one;
+}
+
+// Z case: n zero bytes from an anonymous mapping, fed by ONE process() call (optionally after `pre` single bytes)
+template <typename Hsh>
+static std::string zero_case(size_t n, size_t pre)
+{
+    void* p = mmap(nullptr, n, PROT_READ, MAP_PRIVATE | MAP_ANONYMOUS, -1, 0);
+    if (p == MAP_FAILED) return "mmap-failed";
+    Hsh h;
+    const std::uint8_t* z = static_cast<const std::uint8_t*>(p);
+    for (size_t i = 0; i < pre; ++i) h.process(z + i, 1);
+    h.process(z + pre, static_cast<std::uint32_t>(n - pre));
+    std::string r = h.digest_hex();
+    munmap(p, n);
+    return r;
 }
 
 static std::string hex64(std::uint64_t v) { char b[32]; std::snprintf(b, sizeof b, "%016llx", static_cast<unsigned long long>(v)); return b; }
@@ -163,9 +256,10 @@ int main(int argc, char** argv)
         std::vector<std::string> t; std::string w;
         while (ls >> w) t.push_back(w);
         std::ostringstream os;
-        if (t.size() == 3 && t[0] == "D")
+        if ((t.size() == 3 || t.size() == 4) && t[0] == "D")
         {
             Bytes msg = unhex(t[1]);
+            std::uint64_t variant = t.size() == 4 ? std::stoull(t[3]) : 0;
             std::vector<std::vector<size_t>> chunkings;
             for (const auto& c : split(t[2], '/'))
             {
@@ -175,13 +269,13 @@ int main(int argc, char** argv)
             }
             os << "D";
             typedef const void* P; typedef std::uint32_t U; typedef tlx::string_view SV;
-            digest_case<tlx::MD5>(os, "md5", msg, chunkings, [](P p, U n) { return tlx::md5_hex(p, n); }, [](SV s) { return tlx::md5_hex(s); },
+            digest_case<tlx::MD5>(os, "md5", msg, chunkings, variant, [](P p, U n) { return tlx::md5_hex(p, n); }, [](SV s) { return tlx::md5_hex(s); },
                                   [](P p, U n) { return tlx::md5_hex_uc(p, n); }, [](SV s) { return tlx::md5_hex_uc(s); });
-            digest_case<tlx::SHA1>(os, "sha1", msg, chunkings, [](P p, U n) { return tlx::sha1_hex(p, n); }, [](SV s) { return tlx::sha1_hex(s); },
+            digest_case<tlx::SHA1>(os, "sha1", msg, chunkings, variant, [](P p, U n) { return tlx::sha1_hex(p, n); }, [](SV s) { return tlx::sha1_hex(s); },
                                    [](P p, U n) { return tlx::sha1_hex_uc(p, n); }, [](SV s) { return tlx::sha1_hex_uc(s); });
-            digest_case<tlx::SHA256>(os, "sha256", msg, chunkings, [](P p, U n) { return tlx::sha256_hex(p, n); }, [](SV s) { return tlx::sha256_hex(s); },
+            digest_case<tlx::SHA256>(os, "sha256", msg, chunkings, variant, [](P p, U n) { return tlx::sha256_hex(p, n); }, [](SV s) { return tlx::sha256_hex(s); },
                                      [](P p, U n) { return tlx::sha256_hex_uc(p, n); }, [](SV s) { return tlx::sha256_hex_uc(s); });
-            digest_case<tlx::SHA512>(os, "sha512", msg, chunkings, [](P p, U n) { return tlx::sha512_hex(p, n); }, [](SV s) { return tlx::sha512_hex(s); },
+            digest_case<tlx::SHA512>(os, "sha512", msg, chunkings, variant, [](P p, U n) { return tlx::sha512_hex(p, n); }, [](SV s) { return tlx::sha512_hex(s); },
                                      [](P p, U n) { return tlx::sha512_hex_uc(p, n); }, [](SV s) { return tlx::sha512_hex_uc(s); });
         }
         else if (t.size() == 3 && t[0] == "S")
@@ -239,12 +333,65 @@ int main(int argc, char** argv)
 #endif
             std::uint64_t d = tlx::siphash(k, m, msg.size());
             os << "P plain=" << hex64(p) << " sse2=" << hex64(s) << " disp=" << hex64(d);
-            static const std::uint8_t defkey[16] = {0, 1, 2, 3, 4, 5, 6, 7, 8, 9, 10, 11, 12, 13, 14, 15};
-            if (key.size() == 16 && std::memcmp(key.data(), defkey, 16) == 0)
-                os << " def=" << hex64(tlx::siphash(m, msg.size())) << ',' << hex64(tlx::siphash(reinterpret_cast<const char*>(m), msg.size()))
-                   << ',' << hex64(tlx::siphash(tlx::string_view(reinterpret_cast<const char*>(m), msg.size())));
+            // default-key entry points (they ignore `key`): uint8_t*, char*, tlx::string_view, std::string, std::string_view
+            {
+                const char* cm = reinterpret_cast<const char*>(m);
+                std::string str(cm, msg.size());
+                std::string_view stdsv(cm, msg.size());
+                os << " def=" << hex64(tlx::siphash(m, msg.size())) << ',' << hex64(tlx::siphash(cm, msg.size()))
+                   << ',' << hex64(tlx::siphash(tlx::string_view(cm, msg.size())))
+                   << ',' << hex64(tlx::siphash(str)) << ',' << hex64(tlx::siphash(stdsv));
+            }
+            // template <typename Type> siphash(const Type& value): the object representation of a trivially copyable value
+            {
+                std::string tp;
+                auto arr = [&](auto a) { std::memcpy(a.data(), m, a.size()); return hex64(tlx::siphash(a)); };
+                switch (msg.size())
+                {
+                case 1: tp = arr(std::array<std::uint8_t, 1>()); break;
+                case 2: tp = arr(std::array<std::uint8_t, 2>()); break;
+                case 3: tp = arr(std::array<std::uint8_t, 3>()); break;
+                case 4: { tp = arr(std::array<std::uint8_t, 4>()); std::uint32_t v; std::memcpy(&v, m, 4); std::string t2 = hex64(tlx::siphash(v)); if (t2 != tp) tp += "!=" + t2; break; }
+                case 8: { tp = arr(std::array<std::uint8_t, 8>()); std::uint64_t v; std::memcpy(&v, m, 8); std::string t2 = hex64(tlx::siphash(v)); if (t2 != tp) tp += "!=" + t2; break; }
+                case 12: tp = arr(std::array<std::uint8_t, 12>()); break;
+                case 16: tp = arr(std::array<std::uint8_t, 16>()); break;
+                case 32: tp = arr(std::array<std::uint8_t, 32>()); break;
+                default: break;
+                }
+                if (!tp.empty()) os << " tpl=" << tp;
+            }
             ::operator delete(kb, std::align_val_t(16));
             ::operator delete(mb, std::align_val_t(16));
+        }
+        else if (t.size() == 6 && t[0] == "L")
+        {
+            // L <patternhex> <n> <chunking> <variant seed> <model flag>
+            Bytes pat = unhex(t[1]);
+            size_t n = std::stoul(t[2]);
+            Bytes msg(n);
+            for (size_t i = 0; i < n; ++i) msg[i] = pat[i % pat.size()];
+            std::vector<size_t> sizes;
+            for (const auto& x : split(t[3], ',')) sizes.push_back(static_cast<size_t>(std::stoul(x)));
+            std::uint64_t seed = std::stoull(t[4]);
+            typedef const void* P; typedef std::uint32_t U;
+            os << "L";
+            long_case<tlx::MD5>(os, "md5", msg, sizes, seed, [](P p, U k) { return tlx::md5_hex(p, k); });
+            long_case<tlx::SHA1>(os, "sha1", msg, sizes, seed + 1, [](P p, U k) { return tlx::sha1_hex(p, k); });
+            long_case<tlx::SHA256>(os, "sha256", msg, sizes, seed + 2, [](P p, U k) { return tlx::sha256_hex(p, k); });
+            long_case<tlx::SHA512>(os, "sha512", msg, sizes, seed + 3, [](P p, U k) { return tlx::sha512_hex(p, k); });
+        }
+        else if (t.size() == 4 && t[0] == "Z")
+        {
+            // Z <n> <pre> <algo,algo,...>
+            size_t n = std::stoul(t[1]), pre = std::stoul(t[2]);
+            os << "Z";
+            for (const auto& a : split(t[3], ','))
+            {
+                if (a == "md5") os << " md5=" << zero_case<tlx::MD5>(n, pre);
+                else if (a == "sha1") os << " sha1=" << zero_case<tlx::SHA1>(n, pre);
+                else if (a == "sha256") os << " sha256=" << zero_case<tlx::SHA256>(n, pre);
+                else if (a == "sha512") os << " sha512=" << zero_case<tlx::SHA512>(n, pre);
+            }
         }
         else
             os << "?";
